@@ -40,6 +40,7 @@ inductive Prim where
   | curEnq           -- `thread_pool::current::any_enqueued()`
   | resub            -- `co_await thread_pool::current()`: the rest of the body is handed to the pool of this worker thread
   | stopB | destroyB -- `stop()` / delete of the *other* pool instance B (see `Cfg.hasB`)
+  | resolveNow (n : Nat)   -- resolve the operation a coroutine parked in slot `n` awaits through `pool(awaitable)` (see `Act.park`)
   | throw_           -- not an action of the body either: the function given to `run(fn)` ends by throwing; `run`'s closure
                      -- catches it and resolves the promise with the exception (the future is resolved by the job all the same)
   | react            -- not an action of the body: when the job is *cancelled*, whoever observes it (the coroutine's handler,
@@ -58,6 +59,10 @@ inductive Act where
   | curStopped
   | curEnq
   | resub
+  | park (n : Nat) (body : List Prim)   -- a coroutine does `co_await pool(awaitable)` on a pending operation (slot `n`): it is
+                                        -- handed to the pool later, by whoever resolves the operation
+  | resolveNow (n : Nat)
+  | setHandle (n : Nat)                 -- (seeded order only) `set_handle(h)` after the registration
   deriving DecidableEq, Repr, Inhabited
 
 def Prim.toAct : Prim → Act
@@ -69,6 +74,7 @@ def Prim.toAct : Prim → Act
   | Prim.set f => Act.set f
   | Prim.react => Act.nop
   | Prim.throw_ => Act.nop
+  | Prim.resolveNow n => Act.resolveNow n
   | Prim.stopB => Act.stopB
   | Prim.destroyB => Act.destroyB
   | Prim.curStopped => Act.curStopped
@@ -84,6 +90,8 @@ structure Cfg where
   hasB : Bool := false           -- there is a second pool instance B with one worker (thread `nw`; clients start at `nw+1`).
                                  -- Nothing is ever submitted to B; it is only stopped / destroyed, from clients and from A's jobs:
                                  -- `_current` is ONE thread-local shared by all instances
+  awHandleFirst : Bool := true   -- `enqueue_awaiter::await_suspend` stores the coroutine handle before it registers on the awaited
+                                 -- operation (the code as it is; `false`: the seeded reordering)
   curNullOk : Bool := true       -- `current_awaiter` does not form a reference from a null `_current` (repaired code)
   cvYield : Bool := false        -- the harness puts a scheduling point at the entry of `_cond.wait` (predicate evaluated,
                                  -- mutex still held, waiter not yet registered); in the model it is a step of its own anyway
@@ -180,6 +188,7 @@ inductive Ev where
   | exc (j t : Nat)      -- the future was seen resolved with the exception the function threw
   | thrown (j t : Nat)   -- the function throws
   | flagBlock (t f : Nat) | flagSet (f t : Nat)
+  | park (n t : Nat) | awReg (t n : Nat)
   | curStopped (t : Nat) (r : Bool) | curEnq (t : Nat) (r : Bool) | curInline (t : Nat) | crash (t : Nat)
   | unlockB (t : Nat) | cvBlockB (t : Nat)
   | stopBBegin (t : Nat) | stopBEnd (t : Nat) | destroyBBegin (t : Nat) | destroyedB (t : Nat) | destroyBSkip (t : Nat)
@@ -198,6 +207,11 @@ structure State where
   mx : Option Nat := none            -- owner of `_mx` between two steps (only a worker inside its loop head keeps it)
   lockWait : Nat → Bool := fun _ => false   -- the thread found `_mx` taken and is blocked in `lock()`
   flag : Nat → Bool := fun _ => false   -- user-level events (not part of the pool)
+  -- coroutines parked in `co_await pool(awaitable)`
+  slotReg : Nat → Bool := fun _ => false      -- the awaiter is registered on the awaited operation (a resolution wakes it)
+  slotHandle : Nat → Bool := fun _ => false   -- `set_handle(h)` done: a wake-up finds the coroutine
+  slotBody : Nat → List Prim := fun _ => []
+  slotUsed : Nat → Bool := fun _ => false
   -- pool B
   bw : Nat                           -- B's worker thread
   bExit : Bool := false
@@ -393,6 +407,32 @@ def stepIdle (c : Cfg) (s : State) (t : Nat) : State × List Ev × Outcome :=
       if s.cur t then ({ s with todo := upd s.todo t rest, pc := upd s.pc t (Pc.peekCS Peek.resub) }, [], Outcome.cont)
       else if c.curNullOk then ({ s with todo := upd s.todo t rest }, [Ev.curInline t], Outcome.cont)
       else (setPc s t Pc.stuck, [Ev.crash t], Outcome.blocked)   -- pinned code: reference bound to `*nullptr`
+  | Act.park n bd :: rest =>
+      -- `flag (10+n)` is the harness's "registered" signal a resolver waits for. The scheduling point is right after the
+      -- registration, still inside `await_suspend`
+      if c.awHandleFirst then
+        ({ s with todo := upd s.todo t rest, slotReg := upd s.slotReg n true, slotHandle := upd s.slotHandle n true,
+                  slotBody := upd s.slotBody n bd, flag := upd s.flag (10 + n) true },
+         [Ev.park n t, Ev.awReg t n], Outcome.op)
+      else
+        ({ s with todo := upd s.todo t (Act.setHandle n :: rest), slotReg := upd s.slotReg n true, slotHandle := upd s.slotHandle n false,
+                  slotBody := upd s.slotBody n bd, flag := upd s.flag (10 + n) true },
+         [Ev.park n t, Ev.awReg t n], Outcome.op)
+  | Act.setHandle n :: rest =>
+      ({ s with todo := upd s.todo t rest, slotHandle := upd s.slotHandle n true }, [], Outcome.cont)
+  | Act.resolveNow n :: rest =>
+      if s.slotReg n && !s.slotUsed n then
+        if s.slotHandle n then
+          -- `perform_resume` -> `pool.resume(suspend_point)`: a closure with the bare handle is submitted by this thread
+          (newJob { s with slotUsed := upd s.slotUsed n true } t Kind.aw (s.slotBody n) ((s.slotBody n).map Prim.toAct) false rest,
+           [Ev.submit s.nextJob Kind.aw t s.exit], Outcome.cont)
+        else
+          -- seeded order only: the awaiter still has its default resume function, nothing is submitted, the coroutine is lost
+          ({ s with todo := upd s.todo t rest, slotUsed := upd s.slotUsed n true, nextJob := s.nextJob + 1,
+                    kind := upd s.kind s.nextJob Kind.aw, lost := upd s.lost s.nextJob (s.lost s.nextJob + 1),
+                    loc := upd s.loc s.nextJob Loc.done },
+           [Ev.submit s.nextJob Kind.aw t s.exit], Outcome.cont)
+      else ({ s with todo := upd s.todo t rest }, [], Outcome.cont)
   | Act.stopB :: rest =>
       ({ s with todo := upd s.todo t rest, pc := upd s.pc t (Pc.bStopCS false) }, [Ev.stopBBegin t], Outcome.cont)
   | Act.destroyB :: rest =>
